@@ -298,6 +298,11 @@ import glob as _glob
 import json as _json
 import os as _os
 
-for _f in sorted(_glob.glob(_os.path.join(_os.path.dirname(_os.path.abspath(__file__)), "registry.d", "C*.json"))):
-    with open(_f) as _fh:
-        CHECKS[_os.path.basename(_f)[:-5]] = _json.load(_fh)
+_D = _os.path.join(_os.path.dirname(_os.path.abspath(__file__)), "registry.d")
+# only entries the lead has accepted (their check passes on the unchanged tree and is committed)
+_ENABLED = set(open(_os.path.join(_D, "ENABLED")).read().split()) if _os.path.exists(_os.path.join(_D, "ENABLED")) else set()
+for _f in sorted(_glob.glob(_os.path.join(_D, "C*.json"))):
+    _pid = _os.path.basename(_f)[:-5]
+    if _pid in _ENABLED:
+        with open(_f) as _fh:
+            CHECKS[_pid] = _json.load(_fh)
